@@ -56,3 +56,50 @@ def check(ctx, prog, rule, units):
     if n < 1:
         raise AnalysisBroken("%s: no diff tool reads a numrecs field" % rule)
     return n
+
+
+def check_dimlen(ctx, prog, rule, units):
+    """every comparison of the two files' dimension lengths held in variables (values copied from a dimension's `size`) lets the
+    record dimension stand for its number of records: each compared variable also has a definition from `numrecs`"""
+    n = 0
+    for fn in prog.all_functions():
+        if fn.unit.name.split("/")[-1] not in units:
+            continue
+        defs = {}
+        for b, i, e in fn.elements():
+            s = strip(e)
+            if isinstance(s, dict) and s.get("k") == "asg" and s.get("op") == "=":
+                defs.setdefault(canon(strip(s["a"])), []).append(canon(s["b"]))
+            if isinstance(s, dict) and s.get("k") == "decl":
+                for v in s.get("vars", []):
+                    if v.get("init") is not None:
+                        defs.setdefault(v["n"], []).append(canon(v["init"]))
+        seen = set()
+        for blk in fn.blocks.values():
+            c = blk.cond
+            if c is None:
+                continue
+            for x in walk(c, into_pre=True):
+                if not (isinstance(x, dict) and x.get("k") == "bin" and x.get("op") in ("!=", "==")):
+                    continue
+                a, b_ = canon(strip(x["a"])), canon(strip(x["b"]))
+                da, db = defs.get(a, []), defs.get(b_, [])
+                if not (any("dims.value" in d and d.endswith("->size") for d in da) and
+                        any("dims.value" in d and d.endswith("->size") for d in db)):
+                    continue
+                if (a, b_) in seen:
+                    continue
+                seen.add((a, b_))
+                n += 1
+                inst = "%s:%s %s %s" % (fn.name, a, x["op"], b_)
+                ctx.functions_analysed.add((fn.unit.name, fn.name))
+                if any("numrecs" in d for d in da) and any("numrecs" in d for d in db):
+                    ctx.ok(rule, inst, "both lengths stand for the number of records when the dimension is the record dimension")
+                else:
+                    ctx.fail(rule, fn.name, "%s %s %s" % (a, x["op"], b_), "the two files' dimension lengths are compared as stored in the "
+                             "headers (`size`, 0 for the record dimension in both files): a variable list (-v) comparison of files with "
+                             "different record counts passes this test and compares only the first file's records",
+                             fn=fn, line=blk.tl or fn.line, inst=inst)
+    if n < 1:
+        raise AnalysisBroken("%s: no comparison of dimension lengths held in variables found" % rule)
+    return n
